@@ -30,6 +30,7 @@ def impl(case: Case) -> str:
 
 
 def canon_equal(case: Case, impl_out: str, model_out: str) -> bool:
+    model_out = model_out.replace("!", "")      # the model's ghost provenance marks (spiral stream)
     if rs.values_too_large(impl_out) or rs.values_too_large(model_out):
         return True
     return impl_out == model_out
@@ -44,6 +45,20 @@ def oracle(case: Case, out: str):
     out = out.replace("#CURSOR", "")
     res, known = out.split("|", 1)
     got = res.split(";")
+    if "spiral" in case.tags:
+        # self-dependent variables: results depend on the spiral heuristic, not on the meaning alone.
+        # What the statement still asks: nothing left on the stack / marked after a failed request,
+        # and every retained value reproducible from the inputs and the other retained values
+        # (C02's oracle; its recorded finding F-C02b is C02's to report, not a consequence of a failure)
+        for i, g in enumerate(got):
+            if "#STATE" in g:
+                return ("stack-or-invalidated-left", f"request {c.reqs[i]}: evaluation stack or invalidated set not empty after the request")
+        from . import c02
+        c_plain = rs.SysCase(c.nP, c.nG, c.mem, c.msl, c.vars, c.inputs, c.reqs)
+        v = c02.oracle(Case(line=rs.to_line(c_plain), payload=pickle.dumps(c_plain).hex(), tags=("kind=spiral",), claimed=True), out)
+        if v is not None and not v[0].startswith("retained-derived-from-spiral-default"):
+            return v
+        return None
     want = c01.expected_results(c)                       # meaning under the faults armed at that moment
     c_nofault = rs.SysCase(c.nP, c.nG, c.mem, c.msl, c.vars, c.inputs, [r for r in c.reqs if r[0] in ("calc", "add")])
     clean = iter(c01.expected_results(c_nofault))        # meaning with no fault armed
@@ -97,7 +112,8 @@ def generate(rng: random.Random, tier: str):
     out = []
     for i in range(n):
         faults: list = []
-        kind = "cycle" if rng.random() < 0.2 else "ranked"
+        u = rng.random()
+        kind = "cycle" if u < 0.2 else ("spiral" if u < 0.45 else "ranked")
         c = rs.gen_case(rng, kind=kind, msl=rng.choice([1, 1, 2]), fault_ids=faults, bad_rate=0.05 if rng.random() < 0.4 else 0.0, nreq=rng.randint(3, 6))
         base = list(c.reqs)
         reqs = []
@@ -115,7 +131,7 @@ def generate(rng: random.Random, tier: str):
         c.reqs = reqs
         for trace in (False, True):
             c2 = rs.SysCase(c.nP, c.nG, c.mem, c.msl, c.vars, c.inputs, c.reqs, {"trace": trace})
-            out.append(_case(c2, (kind, f"trace={trace}", f"faults={len(faults)}")))
+            out.append(_case(c2, (kind, f"kind={kind}", f"trace={trace}", f"faults={len(faults)}")))
     return out
 
 
